@@ -1074,7 +1074,7 @@ class Gen:
             if e[1] in ("==", "!=") and lt.startswith("Option<") and rt.startswith("Option<") and \
                     (lt == rt or lt.endswith("?>") or rt.endswith("?>")) and lt[7:-1] in ("Address", "Symbol", "u32", "?"):
                 return f"({l} {'=' if e[1] == '==' else '≠'} {r})"
-            if lt == rt and lt in ("Address", "Symbol") and e[1] in ("==", "!="):
+            if lt == rt and lt in ("Address", "Symbol", "Bytes") and e[1] in ("==", "!="):
                 return f"({l} {'=' if e[1] == '==' else '≠'} {r})"
             if lt == rt == "Bytes32":
                 if e[1] in ("==", "!="):
@@ -1575,6 +1575,17 @@ class Gen:
                 x_ = self.fresh(cl[1][0] + "_")
                 pl = self.cond(cl[2], dict(env, **{cl[1][0]: (x_, vt[4:-1])}))
                 return (f"(List.any {vl} (fun {x_} => decide {pl}))", "bool")
+            if vt.startswith("Vec<tuple<") and cl[0] == "closure" and len(cl[1]) == 1 and isinstance(cl[1][0], tuple) \
+                    and len(cl[1][0]) == len(vt[10:-2].split(",")):
+                # `|(a, _)|` over a vector of tuples: the components by projection (`_` binds nothing)
+                tys_ = vt[10:-2].split(",")
+                x_ = self.fresh("p_")
+                env2 = dict(env)
+                for jx_, (nm_, ty_) in enumerate(zip(cl[1][0], tys_)):
+                    if nm_ != "_":
+                        env2[nm_] = (x_ + "".join(".2" for _ in range(jx_)) + (".1" if jx_ < len(tys_) - 1 else ""), ty_)
+                pl = self.cond(cl[2], env2)
+                return (f"(List.any {vl} (fun {x_} => decide {pl}))", "bool")
         if name == "position" and len(args) == 1 and r0[0] == "mcall" and r0[2] == "iter" and not r0[3]:
             # `v.iter().position(|x| pure predicate)`: index of the first element satisfying it
             cl = self.strip(args[0])
@@ -1634,6 +1645,8 @@ class Gen:
             return (f"(List.isEmpty {rl})", "bool")
         if rt.startswith("Vec<") and name == "len" and not args:
             return (f"(List.length {rl})", "u32")
+        if rt == "Bytes" and name == "is_empty" and not args:
+            return (f"(List.isEmpty {rl})", "bool")
         if rt == "Bytes" and name == "len" and not args:
             return (f"(List.length {rl})", "u32")     # the length of a byte string / host string
         if rt in NATTY and name == "div_ceil" and len(args) == 1:
@@ -2174,7 +2187,7 @@ class Gen:
             return self.tr(real[i], env, ka, ret)
         return go(0)
 
-    MUTATORS = ("push_back", "push_front", "append", "extend_from_array", "remove", "pop_front", "pop_back", "set", "insert")
+    MUTATORS = ("push_back", "push_front", "append", "extend_from_array", "remove", "remove_unchecked", "pop_front", "pop_back", "set", "insert")
 
     def deep_assigned(self, x, acc, lets):
         """every local that an assignment or a mutating method call ANYWHERE inside `x` re-binds (closures excluded);
@@ -2350,6 +2363,23 @@ class Gen:
                     and self.reads[self.strip(s[1])[1][1]][0] == "fn" and (self.cur_ns, self.strip(s[1])[1][1]) not in self.sigs:
                 # a declared function of the reads record called for its trap only (`validate(e, &x);`)
                 return self.tr(self.strip(s[1]), env, lambda a, t: go(i + 1, env), ret)
+            if s[0] == "expr" and self.strip(s[1])[0] == "match" and len(self.strip(s[1])[2]) == 2 \
+                    and self.strip(s[1])[2][0][0][0] == "some" and len(self.strip(s[1])[2][0][0]) == 2 and self.strip(s[1])[2][1][0][0] == "none":
+                # `match o { Some(x) => A, None => B }` as a statement: `if let Some(x) = o { A } else { B }`
+                m_ = self.strip(s[1])
+                blk = lambda x_: x_ if x_[0] == "block" else ("block", [("expr", x_)], None)
+                stmts2 = list(stmts[i:])
+                stmts2[0] = ("expr", ("iflet", m_[2][0][0][1], m_[1], blk(m_[2][0][1]), blk(m_[2][1][1])))
+                return self.tr_stmts(stmts2, env, k_end, ret)
+            if s[0] == "expr" and self.strip(s[1])[0] == "mcall" and self.strip(s[1])[2] == "remove_unchecked" and len(self.strip(s[1])[3]) == 1 \
+                    and self.strip(self.strip(s[1])[1])[0] == "var" and env.get(self.strip(self.strip(s[1])[1])[1], ("", ""))[1].startswith("Vec<"):
+                # `v.remove_unchecked(i);` on a local vector: a host error (panic) when `i` is out of bounds
+                vn = self.strip(self.strip(s[1])[1])[1]
+                old_, vt_ = env[vn]
+                def kru(ia, it_):
+                    return (f"(if {as_nat(ia, it_)} < List.length {old_} then\n "
+                            f"{go(i + 1, dict(env, **{vn: (f'(List.eraseIdx {old_} {as_nat(ia, it_)})', vt_)}))}\n else\n Comp.panic)")
+                return self.tr(self.strip(s[1])[3][0], env, kru, ret)
             if s[0] == "let" and self.strip(s[3])[0] == "closure" and all(isinstance(p_, str) for p_ in self.strip(s[3])[1]):
                 # `let f = |x| { .. };` — a local function: remembered, and expanded where it is called
                 return go(i + 1, dict(env, **{s[1]: ("", "Closure"), "$cl:" + s[1]: (self.strip(s[3]), "Closure")}))
@@ -3521,6 +3551,13 @@ FILES_IRS = [("Irs", "packages/tokens/src/rwa/identity_registry_storage/mod.rs",
               ["stored_identity", "get_identity_profile", "get_country_data", "get_country_data_entries", "get_recovered_to",
                "add_identity", "modify_identity", "remove_identity", "recover_identity", "add_country_data_entries",
                "modify_country_data", "delete_country_data"])]
+STORE_KR = {"Keys": {"Topics": (["u32"], "Vec<SigningKey>"), "Pairs": (["SigningKey"], "Vec<tuple<u32,Address>>")}}
+STRUCTS_KR = {"SigningKey": [("public_key", "Bytes"), ("scheme", "u32")]}
+READS_KR = {"Keys": {"current_contract_address": "Address",
+                     "ClaimTopicsAndIssuersClient_has_claim_topic": ("fn", ["Address", "Address", "u32"], "bool")}}
+FILES_KR = [("Keys", "packages/tokens/src/rwa/claim_issuer/mod.rs", []),
+            ("Keys", "packages/tokens/src/rwa/claim_issuer/storage.rs",
+             ["get_keys_for_topic", "is_key_allowed_for_topic", "is_key_allowed_for_registry", "is_authorized_for", "allow_key", "remove_key"])]
 STORE_TB = {"Binder": {"TokenBucket": (["u32"], "Vec<Address>"), "TotalCount": ([], "u32")}}
 FILES_TB = [("Binder", "packages/tokens/src/rwa/utils/token_binder/mod.rs", []),
             ("Binder", "packages/tokens/src/rwa/utils/token_binder/storage.rs",
@@ -4277,6 +4314,9 @@ def main():
             STRUCT_ALIAS["IdentityProfile"] = "IrsProfile"
             txt = translate(repo, FILES_IRS, reads=READS_IRS, structs=STRUCTS_IRS, store=STORE_IRS,
                             tymaps={"packages/tokens/src/rwa/identity_registry_storage/storage.rs": {"CountryData": "Val", "IdentityType": "Val", "IdentityProfile": "IrsProfile"}})
+        elif "--keys" in sys.argv:
+            txt = translate(repo, FILES_KR, reads=READS_KR, structs=STRUCTS_KR, store=STORE_KR,
+                            rename_types={"SigningKey": "Keys.SigningKey"})
         elif "--binder" in sys.argv:
             HELPER_GETTERS.add("get_persistent_entry")
             txt = translate(repo, FILES_TB, reads={"Binder": {}}, store=STORE_TB)
